@@ -477,7 +477,6 @@ int fam_inv(const vh_args_t *a) {
   if (strstr(a->extra, "nosweep")) return 0;
   long sidx = ncases;
   for (int n = 128; n < 128 + 36 + 8; n++, sidx++) {
-    if (!a->tier && (int)((n + a->seed) % 3) != 0) continue;      /* quick: a third of the residues, rotating with the seed */
     if (!VH_SHARD(a, sidx)) continue;
     vh_case_seed(a, sidx);
     VH_CASE(sidx)
